@@ -36,6 +36,8 @@ def classify(ev):
 
 def run(ctx):
     relcommon.exhaustive(ctx)
+    if relcommon.replayed(ctx, classify, None):
+        return
     drv = ctx.go_build("relational")
     ok = True
     profiles = [("core", "", 300 if ctx.thorough() else 40, 40),
